@@ -155,7 +155,7 @@ theorem opAdd_eq_nonroot (o : Opts) (r : Root) (op : Op) (hp : op.path ≠ []) (
 theorem isContainer_valueOf (c : Cst) :
     c.valueOf.isContainer = (c.isArr || c.isObj) := by
   cases c with
-  | lit s => simp [Cst.valueOf, litValue_not_container, Cst.isArr, Cst.isObj]
+  | lit s => simp [Cst.valueOf, litValue_isContainer_false, Cst.isArr, Cst.isObj]
   | str b => simp [Cst.valueOf, Value.isContainer, Value.isObj, Value.isArr, Cst.isArr, Cst.isObj]
   | arr xs => simp [Cst.valueOf, Value.isContainer, Value.isObj, Value.isArr, Cst.isArr, Cst.isObj]
   | obj ms => simp [Cst.valueOf, Value.isContainer, Value.isObj, Value.isArr, Cst.isArr, Cst.isObj]
